@@ -809,13 +809,61 @@ struct ImplRun {
     fields: Result<Vec<CV>, String>,
 }
 
-fn run_impl(src: &str, modules: &HashMap<Vec<String>, String>, b: &Builtins) -> ImplRun {
+/// `execute_bytecode_sync` with a budget: a history of ≤ 300 operations on tries of depth ≤ 7 needs
+/// well under a million scheduler quanta; a changed `std/dict.qv` that recurses forever (the split
+/// functions have no structural bound) must come back as an outcome, not hang the check.
+static MAX_QUANTA_SEEN: std::sync::atomic::AtomicU64 = std::sync::atomic::AtomicU64::new(0);
+
+fn run_sync_limited(bc: quiver_core::bytecode::Bytecode, b: &Builtins, max_quanta: u64) -> Result<(run::RunOutcome, Option<run::Exec>), String> {
+    use quiver_core::compatibility::{CompatibilityInput, compute_canonical_tuples, compute_param_compatibility, compute_type_compatibility};
+    use quiver_core::executor::ProgramUpdate;
+    let entry = bc.entry.ok_or("no entry")?;
+    let mut ex = run::Exec::new(b.clone(), false, 0);
+    let input = CompatibilityInput { types: &bc.types, tuples: &bc.tuples, functions: &bc.functions, builtins: &bc.builtins, resource_names: &bc.resources };
+    let type_compatibility = compute_type_compatibility(&input);
+    let canonical_tuples = compute_canonical_tuples(&bc.tuples);
+    let (function_param_compatibility, builtin_param_compatibility) = compute_param_compatibility(&input);
+    ex.update_program(ProgramUpdate {
+        constants: bc.constants,
+        functions: bc.functions,
+        tuples: bc.tuples[2..].to_vec(),
+        types: bc.types,
+        builtins: bc.builtins,
+        resources: bc.resources,
+        type_compatibility,
+        function_param_compatibility,
+        builtin_param_compatibility,
+        canonical_tuples,
+    });
+    ex.spawn_process(0, Some(entry), vec![], quiver_core::value::Value::nil(), vec![], false).map_err(|e| format!("spawn: {e:?}"))?;
+    for q in 0..max_quanta {
+        MAX_QUANTA_SEEN.fetch_max(q, std::sync::atomic::Ordering::Relaxed);
+        let _ = ex.step(1000, 0);
+        let Some(p) = ex.get_process(0) else { return Err("process disappeared".into()) };
+        if let Some(r) = &p.result {
+            return Ok(match r {
+                Ok(v) => {
+                    let v = v.clone();
+                    (run::RunOutcome::Value(v), Some(ex))
+                }
+                Err(e) => (run::RunOutcome::Error(e.clone()), None),
+            });
+        }
+    }
+    Err(format!("no result after {max_quanta} scheduler quanta of 1000 units (divergence?)"))
+}
+
+fn run_impl(src: &str, n_ops: usize, modules: &HashMap<Vec<String>, String>, b: &Builtins) -> ImplRun {
     let unit = match run::compile_source(src, modules, b) {
         Ok(u) => u,
         Err(e) => return ImplRun { fields: Err(format!("front-end: {e:?}")) },
     };
     let bc = unit.program.to_bytecode(Some(unit.entry));
-    let (out, ex) = run::run_sync(bc.clone(), b, false);
+    let (out, ex) = match qverif::catch(|| run_sync_limited(bc.clone(), b, 2000 + 400 * n_ops as u64)) {
+        Ok(Ok(x)) => x,
+        Ok(Err(e)) => return ImplRun { fields: Err(format!("run: {e}")) },
+        Err(p) => (run::RunOutcome::Panic(p), None),
+    };
     let c = run::canon_outcome(&out, ex.as_ref(), &bc);
     match parse_canon(&c) {
         Some(CV::Tup(_, fs)) => ImplRun { fields: Ok(fs) },
@@ -993,7 +1041,7 @@ fn field_label(h: &History, idx: usize, n_obs: usize, versions: usize) -> String
 
 fn judge(h: &History, modules: &HashMap<Vec<String>, String>, b: &Builtins, model: &mut Model) -> Verdict {
     let (src, n_obs, versions) = program(h);
-    let imp = run_impl(&src, modules, b);
+    let imp = run_impl(&src, h.ops.len(), modules, b);
     let (expect, host_vers) = host_run(h);
     let fields = match imp.fields {
         Ok(f) => f,
@@ -1093,10 +1141,11 @@ fn judge(h: &History, modules: &HashMap<Vec<String>, String>, b: &Builtins, mode
 fn shrink(h: &History, sig: &str, modules: &HashMap<Vec<String>, String>, b: &Builtins, model: &mut Model) -> History {
     let mut cur = h.clone();
     let mut budget = 150;
+    let t0 = std::time::Instant::now();
     loop {
         let mut progressed = false;
         let mut i = cur.ops.len();
-        while i > 0 && budget > 0 {
+        while i > 0 && budget > 0 && t0.elapsed().as_secs() < 25 {
             i -= 1;
             if let Some(c) = drop_op(&cur, i) {
                 budget -= 1;
@@ -1107,7 +1156,7 @@ fn shrink(h: &History, sig: &str, modules: &HashMap<Vec<String>, String>, b: &Bu
                 }
             }
         }
-        if !progressed || budget == 0 {
+        if !progressed || budget == 0 || t0.elapsed().as_secs() >= 25 {
             return cur;
         }
     }
@@ -1145,6 +1194,64 @@ fn drop_op(h: &History, i: usize) -> Option<History> {
     Some(History { kind: h.kind.clone(), ops })
 }
 
+/// All keys mentioned by a history.
+fn history_keys(h: &History) -> Vec<Key> {
+    let mut ks = BTreeSet::new();
+    for o in &h.ops {
+        match o {
+            Op::Put(_, k, _) | Op::Remove(_, k) | Op::Get(_, k) | Op::Has(_, k) => {
+                ks.insert(k.clone());
+            }
+            Op::From(ps) => {
+                for (k, _) in ps {
+                    ks.insert(k.clone());
+                }
+            }
+            _ => {}
+        }
+    }
+    ks.into_iter().collect()
+}
+
+/// The model and the implementation disagree (or the trie is malformed) but every observation of the
+/// history is still right: search the neighbourhood for a wrong ANSWER — on every version, read every
+/// key of the history, count, list; then put / remove every key and read again.
+fn neighbourhood(h: &History) -> Vec<History> {
+    let keys = history_keys(h);
+    let versions = 1 + h.ops.iter().filter(|o| o.creates()).count();
+    let mut out = vec![];
+    // (a) read everything everywhere
+    let mut a = h.clone();
+    for v in 0..versions {
+        for k in &keys {
+            a.ops.push(Op::Get(v, k.clone()));
+        }
+        a.ops.push(Op::Count(v));
+    }
+    out.push(a);
+    // (b) per version: update every key, then read everything
+    for v in (0..versions).rev().take(6) {
+        let mut b = h.clone();
+        let mut next = versions;
+        let mut val = 900_000;
+        for k in &keys {
+            for remove in [false, true] {
+                b.ops.push(if remove { Op::Remove(v, k.clone()) } else { Op::Put(v, k.clone(), val) });
+                val += 1;
+                for k2 in &keys {
+                    b.ops.push(Op::Get(next, k2.clone()));
+                }
+                b.ops.push(Op::Count(next));
+                next += 1;
+            }
+        }
+        if b.ops.len() <= 400 {
+            out.push(b);
+        }
+    }
+    out
+}
+
 fn history_json(h: &History) -> serde_json::Value {
     json!({"kind": h.kind, "ops": h.ops.iter().map(|o| o.to_json()).collect::<Vec<_>>()})
 }
@@ -1176,7 +1283,26 @@ fn main() {
         assert_eq!(m, fnv1a32(k.bytes()).to_string(), "model FNV differs from host FNV");
     }
 
-    let report = |ev: &mut Ev, h: &History, sig: &str, msg: &str, found: bool, modules: &HashMap<Vec<String>, String>, b: &Builtins, model: &mut Model| {
+    let mut reported: BTreeSet<String> = BTreeSet::new();
+    let mut report = |ev: &mut Ev, h: &History, sig: &str, msg: &str, found: bool, modules: &HashMap<Vec<String>, String>, b: &Builtins, model: &mut Model| {
+        // shrink only the first history of each signature (Ev keeps one replay per signature)
+        if !reported.insert(sig.to_string()) || reported.len() > 8 {
+            ev.violation(sig, msg, json!({"history": history_json(h)}), found);
+            return;
+        }
+        let mut h = h.clone();
+        let mut sig = sig.to_string();
+        if !found {
+            // look for a concrete wrong answer near the disagreement
+            'search: for cand in neighbourhood(&shrink(&h, &sig, modules, b, model)) {
+                if let Some((s2, _, true)) = judge(&cand, modules, b, model).failure {
+                    h = cand;
+                    sig = s2;
+                    break 'search;
+                }
+            }
+        }
+        let (h, sig) = (&h, sig.as_str());
         let small = shrink(h, sig, modules, b, model);
         let v = judge(&small, modules, b, model);
         let (msg2, found2) = match v.failure {
@@ -1184,7 +1310,13 @@ fn main() {
             _ => (msg.to_string(), found),
         };
         let (src, _, _) = program(&small);
-        let broken = if found2 { json!(null) } else { json!(format!("correspondence model<->impl on std/dict.qv ({sig}); theorems C19.* are about the model")) };
+        let broken = if found2 {
+            json!(null)
+        } else if sig == "kind=wf" {
+            json!("theorems C19.put_wf / C19.remove_wf (trie invariant incl. canonical shape) do not hold of the tree built by std/dict.qv; correspondence model<->impl on the structural value")
+        } else {
+            json!(format!("correspondence model<->impl on std/dict.qv ({sig}); theorems C19.* are about the model"))
+        };
         ev.violation(
             sig,
             &format!("{msg2}  [history: {}]", small.ops.iter().map(|o| o.model_req()).collect::<Vec<_>>().join("; ")),
@@ -1249,6 +1381,10 @@ fn main() {
     for i in 0..n_hist {
         if t0.elapsed().as_secs() > budget_s {
             ev.hit("stopped:time-budget");
+            break;
+        }
+        if ev.oracle_failures + ev.model_disagreements >= 40 {
+            ev.hit("stopped:40-failures");
             break;
         }
         let mut r = Rng::for_case(opts.seed ^ 0xC19, i);
@@ -1329,6 +1465,7 @@ fn main() {
             report(&mut ev, &h, &sig, &msg, found, &modules, &b, &mut model);
         }
     }
+    ev.set_extra("max_scheduler_quanta_per_history", json!(MAX_QUANTA_SEEN.load(std::sync::atomic::Ordering::Relaxed) + 1));
     ev.set_extra("max_tree_depth", json!(max_depth));
     ev.set_extra("max_collision_bucket", json!(max_bucket));
     ev.set_extra("model_requests", json!(model.requests));
